@@ -86,6 +86,7 @@ Section js_ind.
   Hypothesis H11 : forall m, Forall (fun kv => P (snd kv)) m -> P (Obj m).
   Hypothesis H12 : forall k v, P v -> P (ToJ k v).
   Hypothesis H13 : forall b, P (Cyc b).
+  Hypothesis H14 : forall m h, P (ObjH m h).
   Fixpoint js_ind' (v : js) : P v :=
     match v with
     | Undef => H1 | Null => H2 | Bool b => H3 b | Num b d n => H4 b d n | Str s => H5 s | Fun => H6
@@ -96,6 +97,7 @@ Section js_ind.
                          match m with [] => Forall_nil _ | x :: r => Forall_cons _ (js_ind' (snd x)) (go r) end) m)
     | ToJ k v => H12 k v (js_ind' v)
     | Cyc b => H13 b
+    | ObjH m h => H14 m h
     end.
 End js_ind.
 
@@ -115,6 +117,7 @@ Fixpoint denote (v : js) : dres :=
   | Obj m => seq_obj (map (fun kv => (fst kv, denote (snd kv))) m)
   | ToJ _ _ => DVal (JObj [])
   | Cyc _ => DErr 6
+  | ObjH m _ => seq_obj (map (fun kv => (fst kv, DUndef)) m)   (* not covered by the shape theorem *)
   end.
 
 (* no toJSON methods, object keys pairwise different *)
@@ -123,6 +126,7 @@ Fixpoint plain (v : js) : Prop :=
   | Arr l => fold_right (fun x acc => plain x /\ acc) True l
   | Obj m => distinct (map fst m) /\ fold_right (fun kv acc => plain (snd kv) /\ acc) True m
   | ToJ _ _ => False
+  | ObjH _ _ => False
   | _ => True
   end.
 
@@ -182,6 +186,8 @@ Proof.
     inversion H; subst. cbn [fold_right map fst distinct] in Hp, Hf, Hd. destruct Hp as [Hx Hl].
     constructor; [intros k; apply H2; [assumption | lia] | apply IHm; try tauto; lia].
   - (* toJSON object: excluded *)
+    destruct Hp.
+  - (* object with members beyond its own enumerable ones: excluded *)
     destruct Hp.
 Qed.
 
@@ -472,4 +478,27 @@ Proof.
   specialize (H (seq 0 (length l)) [] l Hl).
   destruct (fold_left step (seq 0 (length l)) ([], l)) as [lg out]. cbn [fst] in *.
   rewrite map_app, H. reflexivity.
+Qed.
+
+(* ------------------------------------------------------------------ *)
+(* 15.12.3 JO with a property list: K is the list as it is and Str reads each name with
+   [[Get]], so a member found on the prototype chain (or an own non-enumerable one) is
+   emitted when the list names it, and only then *)
+Lemma walk_listed_inherited f k :
+  str_walk es5 (RList [PStr k]) (Some [k]) (S (S f)) false false [] (ObjH [] [(k, Null)])
+  = DVal (JObj [(k, JNull)]).
+Proof.
+  assert (H : js_lookup es5 k [(k, Null)] = Null).
+  { unfold js_lookup. cbn [f_surr es5 lookup]. now rewrite key_eqb_refl. }
+  cbn [str_walk app map]. rewrite !H. reflexivity.
+Qed.
+
+Theorem property_list_reads_chain : forall k,
+  stringify es5 (ObjH [] [(k, Null)]) (RList [PStr k]) SNone
+    = SText (123 :: (quote_fl es5 k ++ 58 :: [110; 117; 108; 108]) ++ [125]) /\
+  stringify es5 (ObjH [] [(k, Null)]) RNone SNone = SText [123; 125].
+Proof.
+  intros k. split; [|vm_compute; reflexivity].
+  unfold stringify. cbn [plist_of f_surr es5 plist_es5 pitem_name mem_key].
+  change 60%nat with (S (S 58)). rewrite walk_listed_inherited. reflexivity.
 Qed.
